@@ -527,6 +527,8 @@ impl Prop for C03 {
             } else {
                 super::pylayer::dual2_layer(ctx, "C03", rng);
             }
+            // the shared-storage constructor of the layer with names in any order
+            super::pylayer::dual_conversions(ctx, "C03", rng);
             ctx.distinct(crate::util::hash_u64s(&[0x9e, idx]));
             return;
         }
